@@ -100,6 +100,14 @@ fn make_fn(name: String, beh: String, log: Log) -> Function<DefaultNumericTypes>
             Err(EvalexprError::FunctionIdentifierNotFound(format!("inner_{}", name)))
         } else if beh == "fail" {
             Err(EvalexprError::CustomMessage(format!("fail:{}", name)))
+        } else if let Some(t) = beh.strip_prefix("expect:") {
+            // a user function that demands a type of its argument: fails with the matching typed error, the argument as payload
+            let r = match t {
+                "float" => arg.as_float().map(|_| ()), "int" => arg.as_int().map(|_| ()), "number" => arg.as_number().map(|_| ()),
+                "string" => arg.as_string().map(|_| ()), "boolean" => arg.as_boolean().map(|_| ()), "tuple" => arg.as_tuple().map(|_| ()),
+                _ => arg.as_empty(),
+            };
+            r.map(|_| arg.clone())
         } else if let Some(v) = beh.strip_prefix("const:") {
             Ok(dec(v))
         } else {
@@ -199,6 +207,14 @@ fn run_entry<C: Context<NumericTypes = DefaultNumericTypes> + ContextWithMutable
                     },
                     "VariableIdentifierWrite" => {
                         *child.operator_mut() = Operator::VariableIdentifierWrite { identifier: format!("v{}", i) };
+                    },
+                    "TargetThenCall" => {
+                        // the shape of an assignment: an (unbound) write target first, recording calls after it
+                        if i == 0 {
+                            *child.operator_mut() = Operator::VariableIdentifierWrite { identifier: "v0".to_string() };
+                        } else {
+                            child = call;
+                        }
                     },
                     "VariableIdentifierRead" => {
                         let unbound = mask.as_bytes().get(i) == Some(&b'1');
